@@ -114,6 +114,16 @@ def cases(tier):
         for p in late_p:
             for cs in itertools.product(quad, repeat=4):
                 out.append(program(p, list(cs), close))
+    # puts whose awaitable is made some time before the put is performed (`p = queue.put(x)` ... `await p`), also performed in
+    # another order than they were made, also after the close: an item enters the queue when the put is performed
+    prep = [[['PUTPREP', 'q', 'a0', 0], ['D', 1], ['TRY', [['PUT', 'q', 'a0', 0]]]],
+            [['PUTPREP', 'q', 'a0', 0], ['PUTPREP', 'q', 'a1', 1], ['D', 1], ['TRY', [['PUT', 'q', 'a1', 1]]], ['TRY', [['PUT', 'q', 'a0', 0]]]],
+            [['PUTPREP', 'q', 'a0', 0], ['TRY', [['PUT', 'q', 'a1']]], ['D', 1], ['TRY', [['PUT', 'q', 'a0', 0]]]],
+            [['PUTPREP', 'q', 'a0', 0], ['D', 4], ['TRY', [['PUT', 'q', 'a0', 0]]]]]
+    for close in ('one', 'late'):
+        for p in prep:
+            for c1, c2 in itertools.product(C1[:7], Cs):
+                out.append(program([p], [c1, c2], close))
     return out
 
 
@@ -313,6 +323,13 @@ def explore_case(program, tier):
     for k, v in pts:
         one(program, [{'k': k, 'kind': 'cancel', 'victim': v, 'token': 'x'}], 'cancel', v)
     victims = [op[1] for op in program['roots'][0][1][0][2] if op[0] == 'DO']
+    # a participant that has already finished is cancelled (teardown code cancelling all its tasks): nothing may change
+    alive_at = {k: set(alive) for k, _, alive in bounds}
+    allpts, _ = F.cancel_points(ctx0, bounds, victims=victims, include_done=True)
+    for v in victims:
+        gone = [k for k, vv in allpts if vv == v and v not in alive_at[k] and any(r[0] == 'begin' and r[1] == v for r in ctx0.log)]
+        for k in sorted(set(gone[:2] + gone[-1:])):
+            one(program, [{'k': k, 'kind': 'cancel', 'victim': v, 'token': 'late'}], 'cancel-gone')
     positions = F.attack_positions(ctx0, 0)
     # the moment of close swept over every position of every FIFO round (fault-free)
     for t, j in positions:
